@@ -143,14 +143,20 @@ def volume_cases(draw, tier):
             "seed": draw(st.integers(0, 2 ** 32 - 1)), "kernel": draw(st.sampled_from(["flat", "flat", "geometric"])),
             "orientation": draw(st.sampled_from(["after", "before", "directional"])),
             "coo_initial_memory": draw(st.sampled_from(["1k", "100k", "0.5 GiB"])),
-            "n_threads": draw(st.sampled_from([1, 1, 2, 4]))}
+            "n_threads": draw(st.sampled_from([1, 1, 2, 4])), "equal_docs": draw(st.sampled_from([False, False, True]))}
 
 
 def make_corpus(np, case, n_tokens=None, seed_offset=0):
     rng = np.random.default_rng(case["seed"] + seed_offset)
     n_tokens = n_tokens or case["n_tokens"]
     n_docs = min(case["n_docs"], n_tokens)
-    cuts = np.sort(rng.integers(0, n_tokens + 1, size=n_docs - 1)) if n_docs > 1 else np.array([], dtype=np.int64)
+    if case.get("equal_docs"):
+        # documents of identical length: cumulative sizes hit every chunk boundary exactly (ties in the chunking)
+        per = max(1, n_tokens // n_docs)
+        n_tokens = per * n_docs
+        cuts = np.arange(1, n_docs) * per
+    else:
+        cuts = np.sort(rng.integers(0, n_tokens + 1, size=n_docs - 1)) if n_docs > 1 else np.array([], dtype=np.int64)
     bounds = np.concatenate([[0], cuts, [n_tokens]]).astype(np.int64)
     flat = rng.integers(0, case["vocab"], size=n_tokens)
     return [flat[bounds[i]:bounds[i + 1]] for i in range(n_docs)]
@@ -333,6 +339,11 @@ def thread_cases(draw, tier):
     c["n_docs"] = draw(st.sampled_from([1, 2, 5, 17, 64]))
     c["n_threads_list"] = sorted(set(draw(st.lists(st.integers(1, 16), min_size=2, max_size=3))))
     c["dask_workers"] = draw(st.sampled_from([1, 2, 4, 16]))
+    c["equal_docs"] = draw(st.booleans())
+    if c["equal_docs"]:
+        nt = draw(st.sampled_from([2, 3, 4, 6, 8]))
+        c["n_docs"] = nt * draw(st.sampled_from([1, 2, 3]))
+        c["n_threads_list"] = sorted(set(c["n_threads_list"][:1] + [nt, 1]))
     return c
 
 
